@@ -287,15 +287,23 @@ def evaluate(prop, chk, cases):
     return res
 
 
-def shrink_case(prop, chk, rec, budget=200):
-    """Greedy delta-debugging: keep a smaller case while it is still a violation."""
+def shrink_case(prop, chk, rec, budget=200, wall=None):
+    """Greedy delta-debugging: keep a smaller case while it is still a violation. Bounded both in
+    evaluations and in wall time (a case whose evaluation is slow - real runtimes, deadlines that
+    expire - must not turn a detected violation into a check that runs for half an hour)."""
     best = rec
     improved = True
-    while improved and budget > 0:
+    if wall is None:
+        wall = float(os.environ.get("VERIF_SHRINK_WALL", "60" if chk.tier == "quick" else "300"))
+    # one allowance per run, shared by all the classes that get shrunk
+    if not hasattr(chk, "_shrink_end"):
+        chk._shrink_end = time.time() + wall
+    t_end = chk._shrink_end
+    while improved and budget > 0 and time.time() < t_end:
         improved = False
         for cand in prop.shrink(best["case"]):
             budget -= 1
-            if budget <= 0:
+            if budget <= 0 or time.time() >= t_end:
                 break
             try:
                 r = evaluate(prop, chk, [cand])[0]
